@@ -13,17 +13,27 @@ SPEC = dict(
                 "(join_emitted_plus_old_eq_queued_plus_final); from a fresh state every matching pair exactly once "
                 "(set: 1 iff both arrived, output duplicate-free; multiset: product of occurrence counts); the join is "
                 "fused; the new-tick future drains exactly the arrivals whatever the pendings and its enumeration is "
-                "the join of the tables in either orientation; new-tick output is a permutation of the incremental output; join_final_state + join_persisted_then_new: over any number of ticks on persisted state, emitted + join(initial tables) = join(tables holding all arrivals of all ticks). "
+                "the join of the tables in either orientation; NewTickJoinIter is transcribed as its state machine (outer_iter / "
+                "current_key / outer_val_iter / current_outer_val / inner_val_iter, loop body with return/continue) and proved to "
+                "enumerate exactly that list with no unwrap failing (newTickIter_machine_refines, newTick_machine_emits_join_of_tables, "
+                "fuel bound newTickJoin_length_le); new-tick output is a permutation of the incremental output; the path the join "
+                "operator actually takes every tick (is_new_tick = true on persisted or cleared states): newTick_on_persisted (one tick "
+                "from any persisted tables: tables = old + arrivals, output = join of them) and newTick_persisted_then_new (any number "
+                "of ticks, any mix of 'static / 'tick persistence: each tick's output is the join of what its sides hold); join_final_state + join_persisted_then_new: over any number of ticks on persisted state, emitted + join(initial tables) = join(tables holding all arrivals of all ticks). "
                 "Tie: the harness drives the real symmetric_hash_join exactly as dfir_lang's join/join_multiset operators "
                 "do (fuse, is_new_tick flag, clear() per persistence) over multi-tick histories with scripted pulls, "
-                "keys {0,1}, values {0,1,2}; every poll answer, len() and table dump is diffed against the compiled model; "
-                "relational-join oracles are evaluated on the real code."),
+                "keys {0,1}, values {0,1,2}; every poll answer, len() and table dump is diffed against the compiled model (the new-tick "
+                "enumeration as a sorted multiset, produced in the model by the transcribed NewTickJoinIter machine); nested-loop "
+                "relational-join oracles are evaluated on the real code: per new tick (output = join of everything held), per "
+                "incremental tick on any persisted state (emitted + join(tables before) = join(tables after)), cumulative, "
+                "new-tick vs incremental on fresh state, len()."),
     level_note=("Trusted: Lean kernel + propext/Classical.choice/Quot.sound; FxHashMap modelled as an association list "
-                "(hash iteration order canonicalised by a stable sort on the key); NewTickJoinIter's nested-loop state "
-                "machine is modelled by the list it enumerates; SmallVec/VecDeque as lists; Cow/clone erased; "
+                "(hash iteration order: the new-tick enumeration is compared as a multiset, dumps with keys sorted); NewTickJoinIter's "
+                "two orientations are one transcribed machine instantiated twice (the Rust has two copies of the code), its "
+                "hash_map::Iter / slice::Iter fields are lists; SmallVec/VecDeque as lists; Cow/clone erased; "
                 "multi-tick theorems compose ticks that are driven to their end (a tick abandoned early is covered by the arbitrary-starting-state invariant only)."),
-    trusted_base=["FxHashMap as association list; hash-order dependent output compared after a stable sort by key",
-                  "NewTickJoinIter modelled denotationally (the list its nested loops enumerate)",
+    trusted_base=["FxHashMap as association list; hash-order dependent output compared as a sorted multiset",
+                  "NewTickJoinIter: one transcribed state machine for both (textually duplicated) orientations; iterators as lists",
                   "SmallVec / VecDeque / Cow modelled as lists / values"],
     assumptions=["Key and value Eq/Hash/Clone are coherent", "inputs are fused (the operators wrap them in Pull::fuse)"],
 )
